@@ -27,17 +27,29 @@ StateStrings == IF Tier = "quick" THEN Strings(1) \cup {<<x, y>> : x \in {"plus"
 
 Modes  == {"", "query", "fragment", "form_post"}
 \* kind of response: code (rtype code), tokens (rtype id_token token), idtoken (rtype id_token),
-\* errCallback (callback of a request the user has not completed), errAuthorize (request error raised after URI validation)
+\* errCallback (callback of a request the user has not completed), errAuthorize (request error raised after URI validation),
+\* errStorage (the storage refuses to issue for this request when the callback runs: a plain Go error whose text becomes the
+\* error_description, or an *oidc.Error whose description the storage chose - the description is a free string)
 Kinds  == {"code", "tokens", "idtoken", "errCallback", "errAuthorize"}
+DescStrings == (IF Tier = "quick" THEN Strings(1) \cup {<<x, y>> : x \in {"pct", "plus", "amp"}, y \in Classes} ELSE Strings(2)) \ {<<>>}
 RTypeOf(k, rt) == CASE k = "code" -> "code" [] k = "tokens" -> "id_token token" [] k = "idtoken" -> "id_token" [] OTHER -> rt
 URIShapes == {"plain", "withQuery", "queryPlus", "customScheme", "trailingQ", "queryEncodedAmp"}
 
-Cases0 ==
-  {[kind |-> k, mode |-> m, rtype |-> RTypeOf(k, rt), uri |-> u, state |-> s, session |-> ss] :
-      k \in Kinds, m \in Modes, rt \in {"code", "id_token token"}, u \in URIShapes, s \in StateStrings, ss \in {<<>>, <<"plus", "slash">>, <<"dquote", "gt">>}}
+\* prior: what the provider did just before - "failedWrite": form_post responses (of another flow) whose connection broke while the page was written
+Sessions == {<<>>, <<"plus", "slash">>, <<"dquote", "gt">>}
+Cases0(u) ==
+  {[kind |-> k, mode |-> m, rtype |-> RTypeOf(k, rt), uri |-> u, state |-> s, session |-> ss, producer |-> "", desc |-> <<>>, prior |-> "none"] :
+      k \in Kinds, m \in Modes, rt \in {"code", "id_token token"}, s \in StateStrings, ss \in Sessions}
+CasesPrior(u) ==
+  {[kind |-> k, mode |-> "form_post", rtype |-> RTypeOf(k, "code"), uri |-> u, state |-> s, session |-> ss, producer |-> "", desc |-> <<>>, prior |-> "failedWrite"] :
+      k \in {"code", "tokens", "idtoken"}, s \in Strings(1), ss \in Sessions}
+CasesDesc(u) ==
+  {[kind |-> "errStorage", mode |-> m, rtype |-> rt, uri |-> u, state |-> s, session |-> ss, producer |-> p, desc |-> d, prior |-> "none"] :
+      m \in Modes, rt \in {"code", "id_token token"}, s \in {<<>>, <<"amp", "pct">>}, ss \in {<<>>, <<"plus", "slash">>},
+      p \in {"plain", "oidc"}, d \in DescStrings}
 
 Groups == URIShapes
-CasesOf(u) == {c \in Cases0 : c.uri = u}
+CasesOf(u) == Cases0(u) \cup CasesPrior(u) \cup CasesDesc(u)
 
 -----------------------------------------------------------------------------
 Success(c) == c.kind \in {"code", "tokens", "idtoken"}
@@ -55,12 +67,13 @@ Carries(c) ==
     [] c.kind = "idtoken" -> {"id_token"}
     [] OTHER              -> {"error"}
 \* session_state accompanies code responses and errors (AuthRequestSessionState)
-HasSession(c) == c.session # <<>> /\ c.kind \in {"code", "errCallback"}
+HasSession(c) == c.session # <<>> /\ c.kind \in {"code", "errCallback", "errStorage"}
 
 \* o = [P, L] each [class, channel, target, kept, state, session, params, safe]
 \*   class: "response" | "refused" (no redirect at all) | "panic" ; target: "same" iff the response goes to the registered URI ;
 \*   kept: the registered query parameters are still there with their values ; state/session: "intact" | "absent" | "changed" ;
-\*   params: names of the recovered parameters whose values equal what the provider produced ; safe: form markup intact
+\*   params: names of the recovered parameters whose values equal what the provider produced ; safe: form markup intact ;
+\*   desc: error_description "intact" (equal to the text the provider produced) | "absent" | "changed"
 Expect(c, r) == IF c.kind = "errAuthorize" /\ r = "L" THEN "refused" ELSE "response"    \* webServer.authorize answers request errors as JSON
 
 RulesRouter(r, c, o) ==
@@ -71,6 +84,7 @@ RulesRouter(r, c, o) ==
     <<"C11.state:" \o r,    resp => o.state = (IF c.state = <<>> THEN "absent" ELSE "intact")>>,
     <<"C11.session:" \o r,  (resp /\ HasSession(c)) => o.session = "intact">>,
     <<"C11.params:" \o r,   resp => Carries(c) \subseteq Range(o.params)>>,
+    <<"C11.description:" \o r, (resp /\ c.kind = "errStorage") => o.desc = "intact">>,
     <<"C11.markup:" \o r,   resp => o.safe>>,
     <<"C09.nopanic:" \o r,  o.class # "panic">> }
 Rules(c, o) == RulesRouter("P", c, o.P) \cup RulesRouter("L", c, o.L)
@@ -78,7 +92,7 @@ Check(c, o) == {x[1] : x \in {y \in Rules(c, o) : ~y[2]}}
 
 Good(c, r) == [class |-> Expect(c, r), channel |-> IF Expect(c, r) = "response" THEN Channel(c) ELSE "none", target |-> "same", kept |-> TRUE,
                state |-> IF c.state = <<>> THEN "absent" ELSE "intact", session |-> IF HasSession(c) THEN "intact" ELSE "absent",
-               params |-> SetToSeq(Carries(c)), safe |-> TRUE]
+               params |-> SetToSeq(Carries(c)), safe |-> TRUE, desc |-> IF c.kind = "errStorage" THEN "intact" ELSE "absent"]
 Outcomes(c) == {[P |-> Good(c, "P"), L |-> Good(c, "L")]}
 Conforms(c, o) == o.P.class = Expect(c, "P") /\ o.L.class = Expect(c, "L")
 =============================================================================
